@@ -430,6 +430,13 @@ func stressEv(c *TrieCase, st, twin *trie.SlimTrie, r *rand.Rand, nG int, dur ti
 
 // freshTwin: another instance with the same content (rebuilt, or reloaded from bytes)
 func freshTwin(c *TrieCase, st *trie.SlimTrie, loaded bool) *trie.SlimTrie {
+	if c.legacyLayout != "" {
+		if b, ok := legacyBytes(c, c.legacyLayout); ok {
+			if st2, _, _ := loadLegacy(c, b, false); st2 != nil {
+				return st2
+			}
+		}
+	}
 	if loaded {
 		if st2, _, _ := Reload(c, st); st2 != nil {
 			return st2
@@ -456,7 +463,16 @@ func genConc(t *Tracer, m *Meta, tier string, seed int64, schedFile string, stre
 			if i%2 == 0 {
 				o4 = [4]int{r.Intn(2), 0, 0, 1}
 			}
-			out = append(out, &TrieCase{Keys: keys, Enc: enc, Vals: mkVals(r, "C11", enc, len(keys)), Opt4: o4})
+			c := &TrieCase{Keys: keys, Enc: enc, Vals: mkVals(r, "C11", enc, len(keys)), Opt4: o4}
+			if i%3 == 2 {
+				// an instance that will be loaded from a 0.5.10/0.5.11 stream
+				layout := []string{"v0510-nopref-0.5.10", "v0510-innpref-0.5.11", "v0510-allpref-0.5.10"}[r.Intn(3)]
+				c.Enc = []string{"i32", "i64"}[r.Intn(2)]
+				c.Vals = mkVals(r, "C11", c.Enc, len(keys))
+				c.Opt4 = layoutOpt(layout, r.Intn(2))
+				c.legacyLayout = layout
+			}
+			out = append(out, c)
 		}
 		return out
 	}
@@ -469,9 +485,22 @@ func genConc(t *Tracer, m *Meta, tier string, seed int64, schedFile string, stre
 			return nil
 		}
 		if loaded {
+			if c.legacyLayout != "" {
+				// loaded from a 0.5.10/0.5.11 stream: the loader rewrites the stored prefixes
+				// and rebuilds the leaf array once, inside Unmarshal
+				if b, ok := legacyBytes(c, c.legacyLayout); ok {
+					st2, ec, pan := loadLegacy(c, b, false)
+					t.Emit(Ev{"ev": "legacyload", "layout": c.legacyLayout, "err": ec, "pan": pan})
+					m.class("instance:legacy-loaded")
+					return st2
+				}
+			}
 			st2, ec, pan := Reload(c, st)
 			t.Emit(Ev{"ev": "load", "err": ec, "pan": pan})
+			m.class("instance:loaded")
 			st = st2
+		} else {
+			m.class("instance:fresh")
 		}
 		return st
 	}
@@ -481,7 +510,7 @@ func genConc(t *Tracer, m *Meta, tier string, seed int64, schedFile string, stre
 			nInst, dur = 16, 8*time.Second
 		}
 		for i, c := range mkInstances(nInst) {
-			st := startCase(c, i%2 == 1)
+			st := startCase(c, i%2 == 1 || c.legacyLayout != "")
 			if st == nil {
 				continue
 			}
@@ -515,7 +544,7 @@ func genConc(t *Tracer, m *Meta, tier string, seed int64, schedFile string, stre
 	insts := mkInstances(12)
 	per := len(scheds)/len(insts) + 1
 	for i, c := range insts {
-		st := startCase(c, i%3 == 1)
+		st := startCase(c, i%3 == 1 || c.legacyLayout != "")
 		if st == nil {
 			continue
 		}
@@ -581,6 +610,9 @@ func concReplay(t *Tracer, name string, e map[string]interface{}, c **TrieCase, 
 		t.Emit(worst)
 		return true
 	case "racereport":
+		return true
+	case "legacyload":
+		(*c).legacyLayout = e["layout"].(string)
 		return true
 	}
 	return false
